@@ -232,6 +232,13 @@ def cases(tier):
                 for pay in PAYLOADS:
                     yield {"labels": [f"slot={base}:{slot_name(slot)}", f"payload={pay}", "colliding-sibling"],
                            "payload": _mk(base, [(slot, pay)], "none", {}, collide=True)}
+        if base == "b1":
+            # a request media type that carries a parameter: the parameter's text is run-time text (the Content-Type that is sent)
+            content_slot = next(s_ for s_ in slots if s_[0] == "key" and s_[1][-1] == "content" and "requestBody" in s_[1])
+            for stem in ("application/json; profile=pv", "application/vnd.api+json; charset=utf-8; v=1"):
+                for pay in PAYLOADS:
+                    yield {"labels": [f"slot={base}:{slot_name(content_slot)}", f"media={stem}", f"payload={pay}", "media-parameter"],
+                           "payload": dict(_mk(base, [(content_slot, pay)], "none", {}), media_stem=stem)}
         if tier == "quick":
             # literal_enums changes how enum / const / default values are written
             for slot in slots:
@@ -251,6 +258,7 @@ def cases(tier):
                 for pay in PAIR_PAYLOADS:
                     yield {"labels": [f"slot={base}:{slot_name(s1)}", f"slot2={base}:{slot_name(s2)}", f"payload={pay}"],
                            "payload": _mk(base, [(s1, pay), (s2, pay)], "setup", {})}
+    yield from _typed_default_cases()
     cases.info = {"extra": {"slots": n_slots, "payload_classes": len(PAYLOADS)}}
 
 
@@ -388,7 +396,71 @@ def _pyname(cls, name, names):
     return pars[0]
 
 
+SEPARATORS = ["'", '"', "\\", "\n", "\r", "{", "}", "#", "(", ")", "+", ";", "=", " ", "t", "_", "0"]
+
+
+def _typed_default_cases():
+    """date / date-time defaults whose date-time SEPARATOR is a hostile character (the ISO parser accepts any single character there)."""
+    for fmt in ("date-time", "date"):
+        for sep in SEPARATORS:
+            for pos in ("model", "query"):
+                yield {"labels": [f"typed-default={fmt}", f"separator={sep!r}", f"pos={pos}"], "payload": {"mode": "typed-default", "format": fmt, "sep": sep, "pos": pos}}
+
+
+def _typed_default_doc(fmt, sep, pos):
+    sch = {"type": "string", "format": fmt, "default": f"2020-01-01{sep}12:30:00"}
+    if pos == "model":
+        return gen.base_doc({"M": {"type": "object", "properties": {"when": sch, "other": {"type": "integer"}}}})
+    return gen.base_doc(None, paths={"/x": {"get": {"operationId": "theOp", "parameters": [{"name": "when", "in": "query", "schema": sch}], "responses": {"204": {"description": "n"}}}}})
+
+
+def _run_typed_default(p):
+    H = gen.generate(_typed_default_doc(p["format"], p["sep"], p["pos"]))
+    T = gen.generate(_typed_default_doc(p["format"], "T", p["pos"]))
+    if H.crash:
+        return {"skipped_crash": True, "outcome": f"crash:{H.crash['type']}@{H.crash['where']}", "nontrivial": False}
+    if T.crash or T.rejected:
+        return {"outcome": "twin-not-generated", "nontrivial": False}
+    key = f"typed-default/{p['format']}/{p['pos']}"
+    viol = []
+    from checks.c01 import role
+    if H.rejected:
+        return {"outcome": "rejected-with-diagnostic", "nontrivial": True, "steps": 2}
+    for f, b in sorted(H.tree.items()):
+        if not f.endswith(".py"):
+            continue
+        try:
+            src = b.decode("utf-8")
+            if not H.diags and f in T.tree and trees.erased_dump(src) != trees.erased_dump(T.tree[f].decode("utf-8")):
+                viol.append({"oracle": "ast-differs", "site": role(f), "key": key, "detail": f"{f}: separator {p['sep']!r} changes the code structure"})
+        except (SyntaxError, ValueError) as exc:
+            viol.append({"oracle": "py-syntax", "site": role(f), "key": key, "detail": f"{f}: default 2020-01-01{p['sep']}12:30:00: {type(exc).__name__}: {getattr(exc, 'msg', exc)}"})
+    seen, uniq = set(), []
+    for v in viol:
+        k = (v["oracle"], v["site"])
+        if k not in seen:
+            seen.add(k)
+            uniq.append(v)
+    return {"violations": uniq, "outcome": ("ok" if not uniq else "viol:" + ",".join(sorted({v['oracle'] for v in uniq}))) + ("+diag" if H.diags else ""), "nontrivial": True, "steps": 2}
+
+
+def _apply_media_stem(doc, stem, suffix):
+    for item in doc["paths"].values():
+        for op in item.values():
+            if isinstance(op, dict) and "requestBody" in op:
+                c = op["requestBody"]["content"]
+                k = next(iter(c))
+                op["requestBody"]["content"] = {stem + suffix: c[k]}
+
+
 def run_case(p):
+    if p.get("mode") == "typed-default":
+        return _run_typed_default(p)
+    if p.get("media_stem"):
+        pay = p["slots"][0][1]
+        p = dict(p, hostile=copy.deepcopy(p["hostile"]), twin=copy.deepcopy(p["twin"]))
+        _apply_media_stem(p["hostile"], p["media_stem"], PAYLOADS[pay])
+        _apply_media_stem(p["twin"], p["media_stem"], twin_text(PAYLOADS[pay]))
     if p.get("collide"):
         p = dict(p, hostile=copy.deepcopy(p["hostile"]), twin=copy.deepcopy(p["twin"]))      # the recorded payload stays as recorded
         a = _add_colliding_sibling(p["hostile"], p["collide"], "hostile_name")
